@@ -1,7 +1,7 @@
 SPECIFICATION Spec
 CONSTANTS
-  MaxTs = 7
-  MaxLen = 5
+  MaxTs = 5
+  MaxLen = 4
   Widths = {1,2,3,4}
   Slides = {1,2,3}
   Strategies <- StratMore
